@@ -76,6 +76,7 @@ type Hist struct {
 	Ops  []Op   `json:"ops"`
 	TZ   int    `json:"tz,omitempty"`  // host zone offset in seconds (C02)
 	Seq  uint64 `json:"seq,omitempty"` // position of the global record counter at the start (C10)
+	Base bool   `json:"base,omitempty"` // all subscribers share one case-unique SUPI base, even with an empty suffix
 }
 
 // ------------------------------------------------------------- world state
@@ -148,7 +149,7 @@ func NewWorld(hst Hist) *World {
 	base := ""
 	for _, sp := range hst.Subs {
 		st := &subState{}
-		if sp.Suffix != "" || base != "" {
+		if sp.Suffix != "" || base != "" || hst.Base {
 			if base == "" {
 				base = env.NewSupi()
 			}
